@@ -872,3 +872,60 @@ fn c07t_contains_includes_i16() {
     kani::cover!(a.includes(&b));
     kani::cover!(!a.intersects(&b));
 }
+
+fn any_interval_f32(kind: u8) -> Interval<f32> {
+    let a: f32 = kani::any();
+    let b: f32 = kani::any();
+    match kind { 0 => Interval::TwoSided(a, b), 1 => Interval::UpperOneSided(a), _ => Interval::LowerOneSided(a) }
+}
+// ---------------------------------------------------------------- C11: the documented panics of interval operations, and only those
+#[kani::proof]
+#[kani::should_panic]
+fn c11_interval_add_opposite_directions_panics() {
+    let (a, b): (i8, i8) = (kani::any(), kani::any());
+    let flip: bool = kani::any();
+    let _r = if flip { Interval::UpperOneSided(a) + Interval::LowerOneSided(b) } else { Interval::LowerOneSided(a) + Interval::UpperOneSided(b) };
+    kani::cover!(true, "REACH_AFTER_REJECT");
+}
+#[kani::proof]
+#[kani::should_panic]
+fn c11_interval_sub_same_direction_panics() {
+    let (a, b): (i8, i8) = (kani::any(), kani::any());
+    let flip: bool = kani::any();
+    let _r = if flip { Interval::UpperOneSided(a) - Interval::UpperOneSided(b) } else { Interval::LowerOneSided(a) - Interval::LowerOneSided(b) };
+    kani::cover!(true, "REACH_AFTER_REJECT");
+}
+#[kani::proof]
+#[kani::should_panic]
+fn c11_relative_to_zero_reference_panics() {
+    let k = any_kind();
+    let r = match k {
+        0 => { let (a, b): (f32, f32) = (kani::any(), kani::any()); kani::assume(a == 0.0 || b == 0.0); Interval::TwoSided(a, b) }
+        1 => Interval::UpperOneSided(0.0f32),
+        _ => Interval::LowerOneSided(-0.0f32),
+    };
+    let s = any_interval_f32(any_kind());
+    let _ = s.relative_to(&r);
+    kani::cover!(true, "REACH_AFTER_REJECT");
+}
+#[kani::proof]
+#[kani::should_panic]
+fn c11_relative_to_same_direction_panics() {
+    let (a, b): (f32, f32) = (kani::any(), kani::any());
+    kani::assume(a != 0.0 && b != 0.0 && !a.is_nan() && !b.is_nan());
+    let flip: bool = kani::any();
+    let _ = if flip { Interval::UpperOneSided(a).relative_to(&Interval::UpperOneSided(b)) } else { Interval::LowerOneSided(a).relative_to(&Interval::LowerOneSided(b)) };
+    kani::cover!(true, "REACH_AFTER_REJECT");
+}
+// ... and no other combination panics (non-zero reference, not both one-sided in the same direction)
+#[kani::proof]
+fn c11_relative_to_total_otherwise() {
+    let (ks, kr) = (any_kind(), any_kind());
+    kani::assume(!((ks == 1 && kr == 1) || (ks == 2 && kr == 2)));
+    let s = any_interval_f32(ks);
+    let r = any_interval_f32(kr);
+    let nz = |i: &Interval<f32>| match i { Interval::TwoSided(a, b) => *a != 0.0 && *b != 0.0, Interval::UpperOneSided(a) | Interval::LowerOneSided(a) => *a != 0.0 };
+    kani::assume(nz(&r));
+    let _ = s.relative_to(&r);
+    kani::cover!(true);
+}
